@@ -306,6 +306,28 @@ class StmtMixin:
         k = len(origin.pc)
         if any(o.st.pc[:k] != origin.pc for o in normal):
             return outs
+        # ghost variables are created lazily: give every branch the ones any branch has
+        for g in C.GHOSTS:
+            if any(g in o.st.env for o in normal):
+                for o in normal:
+                    if g not in o.st.env:
+                        self.ghost_entry(g, o.st)
+        # a variable bound on some branches only is unbound (here: arbitrary) on the others
+        allnames = set()
+        for o in normal:
+            allnames |= set(o.st.env)
+        for n in allnames:
+            have = [o.st.env[n] for o in normal if n in o.st.env]
+            if len(have) == len(normal) or not isinstance(have[0], SV) or not have[0].ts or have[0].py is not None:
+                continue
+            ty = have[0].ty
+            for v in have[1:]:
+                ty = self.join_types(ty, v.ty)
+            if ty.kind in ("any", "func", "excval") and any(v.ty.kind != "any" for v in have):
+                continue
+            for o in normal:
+                if n not in o.st.env:
+                    o.st.env[n] = self.fresh_sv(ty, "unbound_" + n)
         names = set(normal[0].st.env)
         for o in normal[1:]:
             names &= set(o.st.env)
@@ -314,7 +336,7 @@ class StmtMixin:
             fields |= set(o.st.heap)
         st = origin.copy()
         st.cur_exc = normal[0].st.cur_exc
-        conds = [smt.And(*o.st.pc[k:]) for o in normal]
+        conds = [self.name_term(st, smt.And(*o.st.pc[k:]), "br", 200) for o in normal]
         st.assume(smt.Or(*conds))
         env = {}
         for n in names:
@@ -336,14 +358,14 @@ class StmtMixin:
             cur = cv[-1]
             for c, v in zip(reversed(conds[:-1]), reversed(cv[:-1])):
                 cur = sv_ite(c, v, cur)
-            env[n] = cur
+            env[n] = self.name_sv(st, cur, n)
         st.env = env
         for f in fields:
             arrs = [self.heap_arr(o.st, f) for o in normal]
             cur = arrs[-1]
             for c, a in zip(reversed(conds[:-1]), reversed(arrs[:-1])):
                 cur = sv_ite(c, a, cur)
-            st.heap[f] = cur
+            st.heap[f] = self.name_sv(st, cur, "H_" + f)
         return rest + [Outcome("normal", st)]
 
     # -------------------------------------------------------------------- raise
@@ -511,9 +533,7 @@ class StmtMixin:
             if f in local and f not in {m[2:] for m in self.contract.modifies if m.startswith("*.")}:
                 # the function may write this field only at the listed objects (frame-checked at exit)
                 for p in local[f]:
-                    obj = self.params_env[p]
-                    if obj.ty.kind == "opt":
-                        obj = opt_inner(obj)
+                    obj = self.frame_object(p, st)
                     self.heap_havoc(st, f, at=obj.ts[0])
             else:
                 self.heap_havoc(st, f)
@@ -526,6 +546,15 @@ class StmtMixin:
             if isinstance(v, SV):
                 for t in v.ts:
                     live |= smt.symbols(t.s)
+        # named sub-terms stay meaningful only with their definitions: close liveness under them
+        todo = [n for n in live if n in self.let_defs]
+        while todo:
+            n = todo.pop()
+            for s2 in self.let_defs[n]:
+                if s2 not in live:
+                    live.add(s2)
+                    if s2 in self.let_defs:
+                        todo.append(s2)
         consts = {n for n, (txt, _) in self.ctx.decls.items() if txt.startswith("(declare-fun %s () " % n)}
         keep = []
         pre = len(self.pre_pc)
